@@ -21,7 +21,7 @@ use vh_core::{NdjsonWriter, catch};
 #[path = "../../../vh-sciparse/src/soup_common.rs"]
 #[allow(dead_code)]
 mod common;
-use common::{TS, build_segment, ia, ifaces_of, path_id, self_consistent};
+use common::{TS, backed_by_input, build_segment, ia, ifaces_of, path_id, self_consistent};
 
 enum Script {
     Deliver(Vec<SignedPathSegment>, Vec<SignedPathSegment>),
@@ -167,8 +167,13 @@ fn replay(inp: &str, outp: &str) {
                 if let Some(p) = &f.panic {
                     pv.push(json!({"key": format!("Total:panic:fetch_paths:{opk}"), "what": format!("fetch_paths({src},{dst}) over {which} panicked: {p}")}));
                 }
+                let all_segs: Vec<&SignedPathSegment> = all_c.iter().chain(all_n.iter()).collect();
                 for p in &f.paths {
-                    match catch(|| self_consistent(p)) {
+                    match catch(|| {
+                        let mut b = self_consistent(p);
+                        b.extend(backed_by_input(p, &all_segs));
+                        b
+                    }) {
                         Ok(b) if b.is_empty() => {}
                         Ok(b) => {
                             let names: Vec<String> = b.iter().map(|s| s.split(':').next().unwrap().to_string()).collect();
